@@ -222,6 +222,23 @@ class Analyzer:
                     return (r + (last_mem,)) if r is not None else None
                 continue
             if k == 'ref':
+                # a reference local bound to a member of a handle's object (`vector &tmp = *lvl->t;`) denotes that member
+                dd = f.decl(e['d'])
+                if dd.get('ref') and dd.get('k') == 'local' and depth < 12:
+                    inits = [v['init'] for n in f.nodes.values() if n['k'] == 'decl' for v in n['v'] if v['d'] == e['d'] and v.get('init') is not None]
+                    if len(inits) == 1:
+                        key = ('_er', e['d'])
+                        busy = getattr(f, '_er_busy', None)
+                        if busy is None:
+                            busy = f._er_busy = set()
+                        if key not in busy:
+                            busy.add(key)
+                            try:
+                                r = self.expr_root(f, inits[0])
+                            finally:
+                                busy.discard(key)
+                            if r is not None:
+                                return r
                 return self.root_of_expr(f, e)
             if k == 'idx':
                 e = unwrap(e['b'])
